@@ -31,6 +31,9 @@ _REC_FUSED = "        if N:\n            data = np.empty(N, dtype=frm)\n        
 _OP2_FORMATS = "        if reclen == 4:\n            self._ibytes = 4\n            self._intstr = self._endian + \"i4\"\n            self._intstru = self._endian + \"%di\"\n            self._i = \"i\"\n            self._Str = self._Str4\n            self._rfrmu = self._endian + \"%df\"\n            self._rfrm = self._endian + \"f4\"\n            self._f = \"f\"\n            self._fbytes = 4\n        else:\n            self._ibytes = 8\n            self._intstr = self._endian + \"i8\"\n            self._intstru = self._endian + \"%dq\"\n            self._i = \"q\"\n            self._Str = struct.Struct(self._endian + \"q\")\n            self._rfrmu = self._endian + \"%dd\"\n            self._rfrm = self._endian + \"f8\"\n            self._f = \"d\"\n            self._fbytes = 8\n"
 _OP2_TABLE = "        table = {4: (4, \"i4\", \"%di\", \"i\", \"%df\", \"f4\", \"f\"), 8: (8, \"i8\", \"@I8@\", \"q\", \"%dd\", \"f8\", \"d\")}\n        nb, istr, istru, ichar, rfrmu, rfrm, fchar = table[4 if reclen == 4 else 8]\n        self._ibytes = self._fbytes = nb\n        self._intstr = self._endian + istr\n        self._intstru = self._endian + istru\n        self._i = ichar\n        self._Str = struct.Struct(self._endian + ichar)\n        self._rfrmu = self._endian + rfrmu\n        self._rfrm = self._endian + rfrm\n        self._f = fchar\n"
 
+_REC_REALS = "        elif form == \"double\":\n            frm = self._endian + \"f8\"\n            frmu = self._endian + \"%dd\"\n            bytes_per = 8\n        elif form == \"single\":\n            frm = self._endian + \"f4\"\n            frmu = self._endian + \"%df\"\n            bytes_per = 4\n"
+_REC_REALS_HELPER = "        elif form in (\"double\", \"single\"):\n            def real_format(form):\n                if form == \"double\":\n                    return self._endian + \"f8\", self._endian + \"%dd\", 8\n                if form == \"single\":\n                    return self._endian + \"f4\", self._endian + \"%df\", @NB@\n                raise ValueError(form)\n            frm, frmu, bytes_per = real_format(form)\n"
+
 RECIPES = [
     # ------------------------------------------------------------------ break: decode sizes (R2)
     ("C11", "break", ["C11-R2"], OP2, "        hbytes = 3 * self._ibytes\n", "        hbytes = 12\n", "DYNAMICS header read with a fixed 12 bytes (wrong with 64-bit keys)"),
@@ -275,4 +278,17 @@ RECIPES += [
     ("C11", "neutral", [], OP4, _DENSE_ASCII_LOOP, _DENSE_ASCII_CARRIED.replace("@R@", "0, 24, 8"), "_rd_dense_ascii: the column header parsed at once, `elems` carried"),
     ("C11", "break", ["C11-R3", "C11-R4"], OP4, _DENSE_ASCII_LOOP, _DENSE_ASCII_CARRIED.replace("@R@", "0, 32, 8").replace("c, r, elems =", "c, elems, r, _x ="),
      "_rd_dense_ascii (header parsed at once): row and word count swapped"),
+    # ------------------------------------------------------------------ pass 4: byte counts taken from the formats (Struct.size, dtype.itemsize, calcsize)
+    ("C11", "neutral", [], OP4, "                self._bytes_sr = 8\n", "                self._bytes_sr = self._str_sr_fromfile.itemsize\n", "_op4open_read: bytes of a real = itemsize of its dtype (64-bit)"),
+    ("C11", "neutral", [], OP4, "                self._bytes_sr = 4\n", "                self._bytes_sr = struct.calcsize(self._str_sr % 1)\n", "_op4open_read: bytes of a real = calcsize of its struct format (32-bit)"),
+    ("C11", "neutral", [], OP4, "                self._bytes_sr = 4\n", "                self._bytes_sr = struct.Struct(self._endian + \"f\").size\n", "_op4open_read: bytes of a real = size of a struct built on the spot"),
+    ("C11", "break", ["C11-R1"], OP4, "                self._bytes_sr = 8\n", "                self._bytes_sr = self._Str_i4.size\n", "_op4open_read (64-bit): bytes of a real taken from the 4-byte marker struct"),
+    ("C11", "break", ["C11-R1"], OP4, "                self._bytes_sr = 4\n", "                self._bytes_sr = np.dtype(self._endian + \"f8\").itemsize\n", "_op4open_read (32-bit): bytes of a real = itemsize of the double dtype"),
+    ("C11", "break", ["C11-R1"], OP4, "                self._bytes_sr = 4\n", "                self._bytes_sr = struct.calcsize(self._endian + \"h\")\n", "_op4open_read (32-bit): bytes of a real = calcsize of a 2-byte format"),
+    ("C11", "neutral", [], OP2, "            frmu = self._endian + \"%df\"\n            bytes_per = 4\n", "            frmu = self._endian + \"%df\"\n            bytes_per = np.dtype(frm).itemsize\n", "rdop2record ('single'): bytes per value = itemsize of the numpy format"),
+    ("C11", "neutral", [], OP2, "            frmu = self._endian + \"%df\"\n            bytes_per = 4\n", "            frmu = self._endian + \"%df\"\n            bytes_per = struct.calcsize(frmu % 1)\n", "rdop2record ('single'): bytes per value = calcsize of the struct format"),
+    ("C11", "break", ["C11-R1"], OP2, "            frmu = self._endian + \"%df\"\n            bytes_per = 4\n", "            frmu = self._endian + \"%df\"\n            bytes_per = struct.calcsize(self._endian + \"d\")\n", "rdop2record ('single'): bytes per value = calcsize of the double format"),
+    # ------------------------------------------------------------------ pass 4: formats returned as a tuple by a helper that raises on anything else
+    ("C11", "neutral", [], OP2, _REC_REALS, _REC_REALS_HELPER.replace("@NB@", "4"), "rdop2record: (numpy format, struct format, bytes) of the real forms from a local helper that raises on other forms"),
+    ("C11", "break", ["C11-R1"], OP2, _REC_REALS, _REC_REALS_HELPER.replace("@NB@", "8"), "rdop2record (helper returning a tuple): 8 bytes per single-precision value"),
 ]
